@@ -93,14 +93,14 @@ PROFILES = {
         c(Ops=CORE1, MaxSeq=5),
         [sim(50, 22, MaxSeq=14, MaxTables=5, MaxHist=20, MaxSealed=2, Ops=CORE1, WriteBias=3),
          edges(20, 2000, Ops=CORE1, MaxSeq=5, MinLen=8),
-         drv(24, 160, DRIVE_W)],
+         drv(24, 160, DRIVE_W), deep(2)],
         c(Ops=CORE_OPS, MaxSeq=6),
         [sim(1500, 30, Keys={1, 2, 3}, MaxSeq=24, MaxTables=6, MaxHist=30, Ops=CORE_OPS, WriteBias=4),
          edges(6, 80000, timeout=2400, Ops=CORE1, MaxSeq=6, MinLen=9),
-         drv(400, 400, DRIVE_W)]),
+         drv(400, 400, DRIVE_W), deep(12)]),
     # C02 snapshots keep their view
     "C02": tree_profile(
-        6, ["READ", "SCAN", "SNAPRES", "OPFAIL"],
+        6, ["READ", "SCAN", "SCANX", "SNAPRES", "OPFAIL"],
         c(Ops=SNAP_OPS, MaxSeq=5, MaxSnaps=1, MaxHist=4),
         [sim(50, 24, MaxSeq=16, MaxTables=5, MaxHist=20, MaxSnaps=2, Ops=SNAP_OPS | {"reopen"}, WriteBias=3),
          edges(40, 2000, Ops=SNAP_OPS, MaxSeq=5, MaxSnaps=1, MaxHist=4, MinLen=8),
@@ -109,19 +109,20 @@ PROFILES = {
         [sim(1500, 30, Keys={1, 2, 3}, MaxSeq=24, MaxTables=6, MaxHist=30, MaxSnaps=2,
              Ops=SNAP_OPS | {"reopen"}, WriteBias=4),
          edges(8, 80000, timeout=2400, Ops=SNAP_OPS, MaxSeq=5, MaxSnaps=2, MaxHist=4, MinLen=8),
-         drv(400, 400, DRIVE_SNAP_W)]),
+         drv(400, 400, DRIVE_SNAP_W)],
+        blobs=[None, None, None, BLOBS[1], BLOBS[7]], val_alphas=[0, 1, 2], scans={"prob": 0.25, "burst": 1}),
     # C03 scans: bounds, prefixes, both ends, overlay
     "C03": tree_profile(
         4, ["SCAN", "SCANX", "OPFAIL"],
         c(Ops=SNAP_OPS, MaxSeq=5, MaxSnaps=1, MaxHist=4),
         [sim(30, 22, Keys={1, 2, 3}, MaxSeq=14, MaxTables=5, MaxHist=20, MaxSnaps=2, MaxSealed=2,
-             Ops=SNAP_OPS | {"reopen"}, WriteBias=3),
-         drv(24, 120, DRIVE_SNAP_W)],
+             Ops=SNAP_OPS | {"reopen", "ingest"}, WriteBias=3),
+         drv(24, 120, dict(DRIVE_SNAP_W, ingest=1.0))],
         c(Ops=SNAP_OPS, MaxSeq=6, MaxSnaps=2, MaxHist=5),
         [sim(800, 30, Keys={1, 2, 3}, MaxSeq=24, MaxTables=6, MaxHist=30, MaxSnaps=2, MaxSealed=2,
-             Ops=SNAP_OPS | {"reopen"}, WriteBias=4),
-         drv(300, 300, DRIVE_SNAP_W)],
-        scans={"prob": 0.6, "burst": 2}),
+             Ops=SNAP_OPS | {"reopen", "ingest"}, WriteBias=4),
+         drv(300, 300, dict(DRIVE_SNAP_W, ingest=1.0))],
+        scans={"prob": 0.6, "burst": 2}, blobs=[None, None, None, BLOBS[1], BLOBS[7]], val_alphas=[0, 1]),
     # C04 reopen restores exactly the flushed state
     "C04": tree_profile(
         6, ["READ", "SCAN", "INVENT", "LOST", "OPFAIL"],
@@ -132,7 +133,8 @@ PROFILES = {
         c(Ops=CORE_OPS | {"ingest"}, MaxSeq=6),
         [sim(1500, 30, Keys={1, 2, 3}, MaxSeq=24, MaxTables=6, MaxHist=30, Ops=CORE_OPS | {"ingest"}, WriteBias=4),
          edges(6, 80000, timeout=2400, Ops=CORE1, MaxSeq=6, MinLen=9),
-         drv(400, 400, dict(DRIVE_W, reopen=2))]),
+         drv(400, 400, dict(DRIVE_W, reopen=2))],
+        blobs=[None, None, None, BLOBS[1], BLOBS[0], BLOBS[7]], val_alphas=[0, 1, 2]),
     # C07 structure of every published version, metadata
     "C07": tree_profile(
         6, ["STRUCT", "META"],
